@@ -161,6 +161,38 @@ def atomic_kind(aop):
     return a  # fetch_add, fetch_sub, fetch_or, fetch_and, add_fetch ...
 
 
+def is_atomic_load(n):
+    """an atomic load in either spelling: atomic_load*(p) with any order, or the plain read of an _Atomic object (sequentially consistent)"""
+    if n is None:
+        return False
+    if n.k == "AtomicExpr":
+        return atomic_kind(n.aop or "") == "load"
+    if n.k == "ImplicitCastExpr" and n.ck == "LValueToRValue" and n.kids:
+        t = strip_parens(n.kids[0])
+        return bool(t is not None and t.tatomic)
+    return False
+
+
+def strip_to_load(n):
+    """like strip(), but an atomic load (in either spelling) is kept: the node that *is* the load is returned"""
+    while n is not None:
+        if is_atomic_load(n):
+            return n
+        if n.k in ("ParenExpr", "ImplicitCastExpr", "CStyleCastExpr"):
+            n = n.kids[0]
+        elif n.k == "CallExpr" and n.callee == "__builtin_expect":
+            n = n.kids[1]
+        else:
+            return n
+    return n
+
+
+def atomic_load_order(n):
+    if n.k == "AtomicExpr":
+        return n.order or "relaxed"
+    return "seq_cst"
+
+
 class Function:
     def __init__(self, prog, d, unit):
         self.prog = prog
@@ -900,6 +932,7 @@ class Program:
         inline.alias_globals([d for _, d in loaded], self.rel, self.inlined)
         for _, d in loaded:
             for fd in d["functions"]:
+                inline.canonical_atomics(fd)
                 inline.split_returns(fd)
                 inline.name_constants(fd)
         inline.alias_renamed([fd for _, d in loaded for fd in d["functions"]], self.rel, census, inline.load_signatures(), self.inlined)
